@@ -101,6 +101,9 @@ def cases_lookup(tier, seed):
     asc = [1, 3, 5, 7, 9]
     for k in (0, 1, 2, 3, 4, 8, 9, 10, 100, 5.5):
         yield dict(kind='match1', data=asc, key=k)
+    for data in ([10, 20, 20, 30], [5, 5], [1, 1, 1, 2], [0, 0.0, 7]):                     # ascending with equal neighbours
+        for k in (data[0] - 1, data[0], data[1], data[-1], data[-1] + 5, (data[0] + data[-1]) / 2):
+            yield dict(kind='match1', data=data, key=k)
     for n in range(1, 6):
         for i in list(range(-1, n + 3)) + [1.5, 2.9]:
             yield dict(kind='choose', n=n, i=i)
@@ -206,7 +209,7 @@ def cases_random(tier, seed):
         elif kind == 'match0':
             yield dict(kind='r-match0', col=col[:15], key=rng.choice(col + [rng.choice(pool)]))
         else:
-            data = sorted({rng.choice(POOL_N) for _ in range(rng.randrange(1, 10))})
+            data = sorted(rng.choice(POOL_N) for _ in range(rng.randrange(1, 10)))          # ascending, ties included
             yield dict(kind='r-match1', data=data, key=rng.choice(POOL_N + [1000, -1000]))
 
 
